@@ -10,6 +10,8 @@ for el in ('int', 'counted', 'string'):
     J.append(Job('c01_array', 'selfref_' + el, 'asan', quick=600, thorough=20000, shards=(2, 3)))
     J.append(Job('c01_array', 'selfref_' + el, 'plain', quick=600, thorough=20000, shards=(1, 2)))
     J.append(Job('c01_array', 'sq_' + el, 'asan', quick=500, thorough=15000, shards=(1, 2)))
+J.append(Job('c01_array', 'nested', 'asan', quick=300, thorough=6000, shards=(2, 4)))
+J.append(Job('c01_array', 'nested', 'plain', quick=300, thorough=6000, shards=(1, 2)))
 J.append(Job('c01_array', 'shared_growth_int', 'asan', quick=40, thorough=200, shards=(1, 2), floor=0.0))
 J.append(Job('c01_array', 'shared_growth_string', 'asan', quick=40, thorough=200, shards=(1, 2), floor=0.0))
 
